@@ -359,6 +359,14 @@ def _parse_einsum_string(einsum_str: str) -> dict:
             f"right-hand side as part of a tensor access."
         )
 
+    gaps = re.split(r"[A-Za-z_]\w*\[[^\]]*\]", rhs)
+    if gaps[0] or gaps[-1] or not all(gaps[1:-1]):
+        raise ValueError(
+            f"Invalid einsum format: {original}. Tensor accesses on the right-hand "
+            f"side must be joined by an operator, with nothing before the first or "
+            f"after the last one."
+        )
+
     for m in input_matches:
         update(m, False)
 
@@ -400,6 +408,8 @@ def _parse_projection(proj_str: str) -> dict | list:
                 )
             if k in result:
                 raise ValueError(f"Duplicate rank entry: {k}. Must be unique. {s}")
+            if not v.strip():
+                raise ValueError(f"Empty projection expression for rank {k}. {s}")
             result[k] = v
         else:
             if not part:
@@ -415,6 +425,10 @@ def _parse_projection(proj_str: str) -> dict | list:
                 raise ValueError(
                     f"Invalid projection value: {part.upper()}. The uppercased form of "
                     f"entry {part} must be a valid ISL identifier. {s}"
+                )
+            if part.upper() in result:
+                raise ValueError(
+                    f"Duplicate rank entry: {part.upper()}. Must be unique. {s}"
                 )
             result[part.upper()] = part
 
